@@ -83,10 +83,12 @@ def check_volume_model(seeds=(0,), shape=(3, 4, 2)):
     import emg3d
     from scipy.constants import mu_0, epsilon_0
     cases = 0
-    for seed in seeds:
+    for seed, far in [(sd, fr) for sd in seeds for fr in (False, True)]:
         rng = np.random.default_rng(seed)
-        h = [rng.uniform(0.5, 2.0, n) for n in shape]
-        grid = emg3d.TensorMesh(h, origin=(0, 0, 0))
+        # far=True: small cells far away from the coordinate origin (projected map coordinates, cells of centimetres to decimetres):
+        # the coefficients must be those of the given widths to rounding, not of differences of large node coordinates
+        h = [rng.uniform(0.5, 2.0, n) * (0.05 if far else 1.0) for n in shape]
+        grid = emg3d.TensorMesh(h, origin=(5.0e5, 7.0e6, -3.0e3) if far else (0, 0, 0))
         vol = h[0][:, None, None] * h[1][None, :, None] * h[2][None, None, :]
         for case in ('isotropic', 'HTI', 'VTI', 'triaxial'):
             for mu in (False, True):
